@@ -121,6 +121,89 @@ func init() {
 							}
 						}
 					}},
+				{Name: "mixed-depth-descendants", ShardDepth: 2, Bounds: engine.Bounds{InputDev: -1},
+					Rule: "full product h x v x (x,y) in HIdxSmall(h)^2 x f in VIdxSmall(v) x refinement kind {both axes, horizontal only, vertical only} x which child is split again x order {coarse-first, fine-first, interleaved, unrelated finer voxel in the middle}: the complete set of descendants of mixed depth merges to exactly the ID at its own zooms; non-trivial = distinct cases with negative f",
+					Body: func(c *engine.Ctx) {
+						h := zs[c.In("h", len(zs))]
+						v := zs[c.In("v", len(zs))]
+						hx := alpha.HIdxSmall(h)
+						x := hx[c.In("x", len(hx))]
+						y := hx[c.In("y", len(hx))]
+						fs := alpha.VIdxSmall(v)
+						f := fs[c.In("f", len(fs))]
+						kind := c.In("kind", 3)
+						dh, dv := int64(1), int64(1)
+						if kind == 1 {
+							dv = 0
+						} else if kind == 2 {
+							dh = 0
+						}
+						if h+2*dh > 35 || v+2*dv > 35 {
+							c.Skip("fine-zoom-above-35")
+						}
+						id := ref.Vox{H: h, X: x, Y: y, V: v, F: f}
+						kids := id.ChangeZoom(h+dh, v+dv)
+						k := c.In("split", 2)
+						split := kids[0]
+						if k == 1 {
+							split = kids[len(kids)-1]
+						}
+						var coarse, fine []string
+						for _, kd := range kids {
+							if kd != split {
+								coarse = append(coarse, kd.Ext())
+							}
+						}
+						for _, g := range split.ChangeZoom(h+2*dh, v+2*dv) {
+							fine = append(fine, g.Ext())
+						}
+						order := c.In("order", 4)
+						var list []string
+						switch order {
+						case 0:
+							list = append(append(list, coarse...), fine...)
+						case 1:
+							list = append(append(list, fine...), coarse...)
+						case 2:
+							for i := 0; i < len(coarse) || i < len(fine); i++ {
+								if i < len(coarse) {
+									list = append(list, coarse[i])
+								}
+								if i < len(fine) {
+									list = append(list, fine[i])
+								}
+							}
+						case 3:
+							// uniform-depth children with an unrelated finer voxel in the middle of the list
+							var all []string
+							for _, kd := range kids {
+								all = append(all, kd.Ext())
+							}
+							other := id.Shift(1, 0, 3)
+							if other == id || h+2 > 35 || v+2 > 35 {
+								c.Skip("no-unrelated-voxel")
+							}
+							o := other.ChangeZoom(h+2, v+2)[0].Ext()
+							list = append(append(append(list, all[:len(all)/2]...), o), all[len(all)/2:]...)
+						}
+						got, err := integrate.MergeExtendedSpatialIds(list, h, v)
+						c.Observe("%s %d %d %d -> %v", id.Ext(), kind, k, order, got)
+						if f < 0 {
+							c.Nontrivial(fmt.Sprint(id.Ext(), kind, k, order))
+						}
+						c.Outcome(fmt.Sprint(len(got)))
+						d := map[string]any{"id": id.Ext(), "call": fmt.Sprintf("integrate.MergeExtendedSpatialIds(%s, %d, %d)", goList(list), h, v), "got": head(got, 20)}
+						ok := err == nil
+						if order == 3 {
+							// the unrelated voxel stays, the children merge
+							ok = ok && len(got) == 2 && (got[0] == id.Ext() || got[1] == id.Ext())
+						} else {
+							ok = ok && len(got) == 1 && got[0] == id.Ext()
+						}
+						if !ok {
+							c.Violation("C09:merging-a-complete-mixed-depth-descendant-set-does-not-return-the-id", d)
+						}
+					}},
 				{Name: "id-roundtrips", ShardDepth: 2, Bounds: engine.Bounds{InputDev: -1},
 					Rule: "full product h x v x (x,y) in HIdxSmall(h)^2 x f in VIdx(v) x (dh,dv) in 0..3 x 0..3: zooming in by (dh,dv) then back out returns exactly the ID; merging the complete set of descendants at the ID's own zooms returns exactly the ID; non-trivial = distinct cases with dh+dv > 0 and negative f",
 					Body: func(c *engine.Ctx) {
